@@ -855,7 +855,9 @@ pub fn run(run: &mut Run, prop: Prop, profile_names: &[&str]) -> Stats {
     let cfg = Cfg { pid: prop.id(), sig: shape, prop, fuel: if thorough { 4_000_000 } else { 600_000 }, ref_limit: 3_000_000, k_ratio: 64 };
     let mut total = drive(run, prop.id(), profile_names, &|sp, th| hays_for(sp, th, prop), &|ast, f, hays, known, st| eval_pattern(&cfg, ast, f, hays, known, st));
     if matches!(prop, Prop::C01 | Prop::C02 | Prop::C03 | Prop::C13) && std::env::var("VERIF_PROFILES").map(|v| v.is_empty() || v.contains("tokens")).unwrap_or(true) {
-        let n = if thorough { 5 } else { if prop == Prop::C01 { 4 } else { 3 } };
+        // token strings of length 5 (46.8 million) are read against the reference by C01 and judged by C08;
+        // the differential sweeps stop at 4
+        let n = if thorough { if prop == Prop::C01 { 5 } else { 4 } } else { if prop == Prop::C01 { 4 } else { 3 } };
         let t = drive_tokens(run, prop.id(), n, &|ast, pat, f, hays, known, st| eval_pattern_text(&cfg, ast, pat, f, hays, known, st));
         total = total.merge(t);
     }
@@ -954,6 +956,15 @@ pub fn quick_size_adjust(pid: &str, profile: &str) -> usize {
     }
 }
 
+/// The thorough tier of the differential sweeps stays below about half an hour per check: the largest
+/// profiles are explored one size deeper by C01 (one executor, reference model) only.
+pub fn thorough_size_adjust(pid: &str, profile: &str) -> usize {
+    match (pid, profile) {
+        ("C02" | "C03" | "C09" | "C13", "P-named" | "P-dupref") => 1,
+        _ => 0,
+    }
+}
+
 pub type EvalFn<'a> = &'a (dyn Fn(&Node, Flags, &[Hay], &Known, &mut Stats) + Sync);
 pub type HaysFn<'a> = &'a dyn Fn(&SweepProfile, bool) -> Vec<Hay>;
 
@@ -966,7 +977,7 @@ pub fn drive(run: &mut Run, pid: &str, profile_names: &[&str], hays_fn: HaysFn, 
     for name in profile_names {
         let sp = profiles::by_name(name).expect("profile");
         let bump: usize = std::env::var("VERIF_SIZE_BUMP").ok().and_then(|s| s.parse().ok()).unwrap_or(0);
-        let max_size = (if thorough { sp.size_thorough } else { sp.size_quick - quick_size_adjust(pid, sp.profile.name).min(sp.size_quick - 1) }) + bump;
+        let max_size = (if thorough { sp.size_thorough - thorough_size_adjust(pid, sp.profile.name) } else { sp.size_quick - quick_size_adjust(pid, sp.profile.name).min(sp.size_quick - 1) }) + bump;
         let hays = hays_fn(&sp, thorough);
         let t0 = std::time::Instant::now();
         let stored = enumerate::enumerate(&sp.profile, max_size.saturating_sub(1).max(1));
